@@ -193,3 +193,77 @@ func joinStrings(xs []string, sep string) string {
 	}
 	return out
 }
+
+// controlConds returns what is known to hold when control reaches target inside root: the conditions of the enclosing if
+// statements (pathConditions) and, for every block on the way down, the negated conditions of earlier statements of that
+// block that are if statements without an else whose body always leaves (return, continue, break, goto, panic). The two
+// spellings of a guard — `if c { … target … }` and `if !c { return }; … target …` — give the same answer.
+func controlConds(root ast.Node, target ast.Node) []condLit {
+	out := pathConditions(root, target)
+	var stack []ast.Node
+	found := false
+	ast.Inspect(root, func(n ast.Node) bool {
+		if found {
+			return false
+		}
+		if n == nil {
+			stack = stack[:len(stack)-1]
+			return false
+		}
+		stack = append(stack, n)
+		if n != target {
+			return true
+		}
+		found = true
+		for i := 0; i+1 < len(stack); i++ {
+			var list []ast.Stmt
+			switch b := stack[i].(type) {
+			case *ast.BlockStmt:
+				list = b.List
+			case *ast.CaseClause:
+				list = b.Body
+			case *ast.CommClause:
+				list = b.Body
+			default:
+				continue
+			}
+			for _, st := range list {
+				if st.Pos() <= stack[i+1].Pos() && stack[i+1].End() <= st.End() {
+					break // reached the statement that contains the target
+				}
+				ifs, ok := st.(*ast.IfStmt)
+				if !ok || ifs.Else != nil || !alwaysLeaves(ifs.Body) {
+					continue
+				}
+				out = append(out, condLit{ifs.Cond, true})
+			}
+		}
+		return false
+	})
+	return out
+}
+
+// alwaysLeaves: the block's last statement transfers control out of the enclosing statement list.
+func alwaysLeaves(b *ast.BlockStmt) bool {
+	if b == nil || len(b.List) == 0 {
+		return false
+	}
+	switch last := b.List[len(b.List)-1].(type) {
+	case *ast.ReturnStmt, *ast.BranchStmt:
+		return true
+	case *ast.ExprStmt:
+		if call, ok := last.X.(*ast.CallExpr); ok {
+			if id, ok := call.Fun.(*ast.Ident); ok && id.Name == "panic" {
+				return true
+			}
+		}
+	case *ast.IfStmt:
+		if last.Else == nil {
+			return false
+		}
+		if eb, ok := last.Else.(*ast.BlockStmt); ok {
+			return alwaysLeaves(last.Body) && alwaysLeaves(eb)
+		}
+	}
+	return false
+}
